@@ -25,7 +25,7 @@ import upp
 ID = "C09"
 GEN = ["Features", "Kinds"]
 CORR_NAME = "declared-kinds-and-pipeline-acceptance"
-RULE = ("five case shapes. (probs) one real problem — a bundled example (unified_planning.test.examples, incl. the "
+RULE = ("seven case shapes. (probs) one real problem — a bundled example (unified_planning.test.examples, incl. the "
         "multi-agent ones), a problem of harness/upp.py ProblemGen (classical/numeric, metrics, invariants, undefined "
         "values, bounded/object/real fluents) or its temporal variant (durative actions with fixed/interval/fluent "
         "durations, start/end/intermediate/overall conditions and effects, timed effects and goals, makespan) — is given "
@@ -35,10 +35,13 @@ RULE = ("five case shapes. (probs) one real problem — a bundled example (unifi
         "1-3 subsets of the compilation kinds (30% planted so that the second compiler is selectable only for the kind the "
         "first one DECLARES): selected engines, per stage whether supports(actual kind) holds and the "
         "features outside the declared chain. (rk) resulting_problem_kind of every class on random and realistic kinds, "
-        "versions None/1..latest. (sk) supported_kind and supports_compilation of every class. (chain) the factory's "
+        "versions None/1..latest. (rk, old versions) for EVERY class and each explicit version 1..latest-1, and without "
+        "declared version, kinds over the features that exist at that version — drawn from the class's own supported kind "
+        "(so that most are supported), the features deprecated since, the features that trigger the additions of "
+        "utils.rewritten_problem_kind, and random others. (up) utils._kind_at_latest_version alone on kinds of every version. (sk) supported_kind and supports_compilation of every class. (chain) the factory's "
         "declared chain on random/realistic kinds. Non-trivial = (probs) some compiler compiled the problem and changed its "
-        "kind; (pipe) a pipeline of >= 2 stages ran to the end; (rk) the transformer changed the kind or failed its version "
-        "assertion; (chain) >= 2 stages selected or no engine found.")
+        "kind; (pipe) a pipeline of >= 2 stages ran to the end; (rk) the transformer changed the kind (an older kind: the result has features the "
+        "upgrade or the body added) or failed its version assertion; (up) the kind was older and got upgraded; (chain) >= 2 stages selected or no engine found.")
 ASSUMPTIONS = [
     "a compiler that raises on a problem inside its supported kind (or does not finish within 8 s: a DNF can blow up) "
     "produces no compiled problem: that is C08's subject; such cases are counted (distribution: compile-error:<class>) "
@@ -49,16 +52,25 @@ ASSUMPTIONS = [
     "TarskiGrounder cannot be imported here, its declarations are translated and compared but it compiles nothing",
     "problem kinds carry the explicit latest version (Problem.kind always builds them so); kind-level cases also use "
     "versions None/1/2",
+    "a declaration that raises declares no kind: for a constructible kind (of any version) that the class supports, "
+    "resulting_problem_kind raising is read as a failure of clause 1 (there is no 'kind the compiler declares as its "
+    "result for the input kind'), and Factory.Compiler(problem_kind, compilation_kinds) raising anything but the "
+    "no-suitable-engine error as a failure of clause 2 (no pipeline was selected although none was refused)",
     "kinds given to Factory.Compiler contain no feature deprecated at their version (ProblemKind.__le__ strips such "
     "features from its operands in place, see C32/C33)",
 ]
 MODELLED = ["regenerated from source on every run (harness/translate_C09.py): every supported_kind / supports / "
             "supports_compilation / resulting_problem_kind body of engines/compilers/*.py as a first-order program, the "
             "factory's preference order of the compilers, FEATURES (which has_*/set_*/unset_* exist and what they test)",
+            "utils._kind_at_latest_version and problem_kind_versioning.equalize_versions are matched statement by statement "
+            "against the bodies modelled as KindProg.kindAtLatest / Kind.equalize (a changed body is TRANSLATION-BROKEN); "
+            "which classes start from it (Decl.atLatest) is read from the source",
             "modelled by hand (tied by correspondence): ProblemKindMeta._set/_unset/_has, clone, ProblemKind.__le__ (C33), "
-            "the compilers-pipeline branch of Factory._get_engine and _get_engine_class for the COMPILER mode",
+            "the ProblemKind constructor's assertions, the compilers-pipeline branch of Factory._get_engine and "
+            "_get_engine_class for the COMPILER mode",
             "NOT modelled: the compilers themselves and Problem.kind (clause 1 of the property is checked on the real code "
             "by the oracle; its Lean statement C09_compiler_full is a hypothesis of the pipeline theorems)"]
+EXTRA_PROPS = ["UPVerif.Props.C09Versions"]
 BUDGET_S = {"quick": 70, "thorough": 700}
 SEARCH_S = {"quick": 60, "thorough": 300}
 
@@ -440,6 +452,51 @@ def rand_kind(rng, base=None, version=None):
     return ["k", sorted(fs), "none" if version is None else str(version)]
 
 
+DEPRECATED = sorted(f for f, (a, d) in FEATURES_VERSIONS.items() if d is not None)
+# the features whose presence makes utils.rewritten_problem_kind / grounded_problem_kind add something
+TRIGGERS = ["GENERAL_NUMERIC_PLANNING", "FLUENTS_IN_BOOLEAN_ASSIGNMENTS", "FLUENTS_IN_NUMERIC_ASSIGNMENTS",
+            "FLUENTS_IN_OBJECT_ASSIGNMENTS", "FLUENTS_IN_DURATIONS", "FLUENTS_IN_ACTIONS_COST",
+            "STATIC_FLUENTS_IN_DURATIONS", "STATIC_FLUENTS_IN_ACTIONS_COST", "ACTIONS_COST", "OVERSUBSCRIPTION",
+            "CONTINUOUS_TIME", "DISCRETE_TIME"]
+_SUPPORTED = {}
+
+
+def supported_features(cname):
+    if cname not in _SUPPORTED:
+        try:
+            _SUPPORTED[cname] = sorted(CLASSES[cname].supported_kind().features)
+        except Exception:
+            _SUPPORTED[cname] = []
+    return _SUPPORTED[cname]
+
+
+def old_kind(rng, cname, version):
+    """a kind of the explicit `version` (or without declared version when None: then over version-1 features, so that
+    its computed version is old) over the features that exist at that version, mostly inside the class's supported kind"""
+    v = 1 if version is None else version
+    pool = [f for f in supported_features(cname) if added(f) <= v] or ["ACTION_BASED"]
+    fs = set(rng.sample(pool, min(len(pool), rng.choice([1, 2, 3, 5, 8, 13]))))
+    fs |= set(f for f in TRIGGERS if added(f) <= v and rng.random() < 0.25)
+    r = rng.random()
+    if r < 0.45:      # the deprecated way of describing numbers (valid at version 1, accepted and ignored later)
+        fs |= set(rng.sample(DEPRECATED, rng.randint(1, len(DEPRECATED))))
+    if rng.random() < 0.25:
+        fs |= set(f for f in rng.sample(FEATS, 3) if added(f) <= v)
+    return ["k", sorted(fs), "none" if version is None else str(version)]
+
+
+def old_version_cases(rng, per):
+    """(rk) for every class x every older explicit version (and no declared version) `per` kinds; (up) the helper alone"""
+    for cname in sorted(CLASSES):
+        for version in list(range(1, LATEST)) + [None]:
+            for _ in range(per):
+                yield ["rk", cname, old_kind(rng, cname, version)]
+    for _ in range(6 * per):
+        cname = rng.choice(sorted(CLASSES))
+        yield ["up", old_kind(rng, cname, rng.choice(list(range(1, LATEST + 1)) + [None]))]
+        yield ["up", rand_kind(rng)]
+
+
 def clean(kind_s):
     """drop the features deprecated at the kind's version (see ASSUMPTIONS)"""
     k = dec_kind(kind_s)
@@ -515,12 +572,15 @@ def cases(rng, tier):
             yield ["rk", cname, rand_kind(rng, base=rng.choice(ex_kinds), version=LATEST if rng.random() < 0.8 else None)]
         else:
             yield ["rk", cname, rand_kind(rng)]
+    for c in old_version_cases(rng, {"quick": 4, "thorough": 40}[tier]):
+        yield c
     for _ in range(80 * n):
         # a later stage that is selectable only thanks to what an earlier stage is declared to remove
         planted = rng.choice([["ACTION_BASED"], ["ACTION_BASED", "STATE_INVARIANTS"], ["ACTION_BASED", "STATE_INVARIANTS", "DISJUNCTIVE_CONDITIONS"],
                               ["ACTION_BASED", "CONDITIONAL_EFFECTS", "CONTINUOUS_TIME", "INT_TYPE_DURATIONS"],
                               ["ACTION_BASED", "UNIVERSAL_CONDITIONS", "FORALL_EFFECTS", "CONTINUOUS_TIME"]])
-        k = clean(rand_kind(rng, base=planted if rng.random() < 0.85 else None, version=LATEST if rng.random() < 0.8 else None))
+        k = clean(rand_kind(rng, base=planted if rng.random() < 0.85 else None,
+                            version=rng.choice([LATEST] * 7 + [None] + list(range(1, LATEST))) if rng.random() < 0.9 else None))
         yield ["chain", k, rand_pipeline(rng) if rng.random() < 0.7 else
                [rng.choice(PIPE_CKS + CKS) for _ in range(rng.choice([1, 2, 2, 3]))]]
     for i in range(200 * n):
@@ -532,9 +592,12 @@ def cases(rng, tier):
 
 def search(rng, tier):
     while True:
-        src = gen_problem_src(rng, tier)
-        yield ["probs", src]
-        yield ["pipe", src, rand_pipeline(rng)]
+        for c in old_version_cases(rng, 1):
+            yield c
+        for _ in range(10):
+            src = gen_problem_src(rng, tier)
+            yield ["probs", src]
+            yield ["pipe", src, rand_pipeline(rng)]
 
 
 # ------------------------------------------------------------------------------------------------
@@ -553,6 +616,19 @@ def impl(payload):
             return "reject"
         try:
             return enc_kind(C.resulting_problem_kind(k, None))
+        except AssertionError:
+            return "assert"
+        except Exception as e:
+            return "raise:" + type(e).__name__
+    if t == "up":
+        if _at_latest() is None:
+            return "skip"
+        try:
+            k = dec_kind(payload[1])
+        except AssertionError:
+            return "reject"
+        try:
+            return enc_kind(_at_latest()(k))
         except AssertionError:
             return "assert"
         except Exception as e:
@@ -605,10 +681,18 @@ def impl(payload):
     raise ValueError(payload)
 
 
+def _at_latest():
+    """utils._kind_at_latest_version, or None when the library has no such helper (then the `up` cases say nothing)"""
+    import unified_planning.engines.compilers.utils as U
+    return getattr(U, "_kind_at_latest_version", None)
+
+
 def model_payload(payload):
     t = payload[0]
     if t in ("sk", "rk"):
         return payload
+    if t == "up":
+        return payload if _at_latest() is not None else "skip"
     if t == "chain":
         return ["chain", payload[1], payload[2], avail()]
     if t == "probs":
@@ -665,6 +749,34 @@ def oracle(payload):
             if row.get("extra"):
                 return (f"pipeline {rec['names']}: the problem produced by stage {i} ({row['name']}) has {row['extra']} "
                         f"outside the declared chain")
+        return None
+    if t == "rk":
+        # a kind the class supports must have a declared result (see ASSUMPTIONS)
+        C = CLASSES[payload[1]]
+        try:
+            if not C.supports(dec_kind(payload[2])):
+                return None
+        except Exception:
+            return None
+        try:
+            C.resulting_problem_kind(dec_kind(payload[2]), None)
+        except Exception as e:
+            return (f"{payload[1]}.resulting_problem_kind raises {type(e).__name__} on a kind the class supports "
+                    f"(version {payload[2][2]}): no declared resulting kind")
+        return None
+    if t == "chain":
+        try:
+            k = dec_kind(payload[1])
+        except AssertionError:
+            return None
+        try:
+            _FACTORY._get_engine(OperationMode.COMPILER, problem_kind=k,
+                                 compilation_kinds=[CompilationKind[c] for c in payload[2]])
+        except UPNoSuitableEngineAvailableException:
+            return None
+        except Exception as e:
+            return (f"Factory.Compiler(problem_kind of version {payload[1][2]}, compilation_kinds={payload[2]}) raises "
+                    f"{type(e).__name__} while chaining the declared kinds: neither a pipeline nor the no-suitable-engine error")
         return None
     return None
 
@@ -764,6 +876,8 @@ def nontrivial(payload, ans):
         return True
     if t == "rk":
         return ans == "assert" or (isinstance(ans, list) and ans[1] != sorted(payload[2][1]))
+    if t == "up":
+        return isinstance(ans, list) and (ans[1] != sorted(payload[1][1]) or ans[2] != payload[1][2])
     if t == "chain":
         return ans == "no-engine" or (isinstance(ans, list) and ans[0] == "ok" and len(ans[1]) >= 2)
     if t == "probs":
@@ -783,8 +897,14 @@ def stats(payload, ans):
     if t == "rk":
         tags.append("rk:" + ("assert" if ans == "assert" else "reject" if ans == "reject" else
                              "changed" if ans[1] != sorted(payload[2][1]) else "same"))
+        tags.append("rk:version-" + payload[2][2])
+        if isinstance(ans, list) and ans[2] != payload[2][2]:
+            tags.append("rk:upgraded")
+    if t == "up":
+        tags.append("up:" + (ans if isinstance(ans, str) else "upgraded" if ans[2] != payload[1][2] else "cloned"))
     if t == "chain":
         tags.append("chain:" + (ans if isinstance(ans, str) else f"ok{len(ans[1])}"))
+        tags.append("chain:version-" + payload[1][2])
     if t == "probs" and isinstance(ans, list):
         for r in ans:
             if len(r) == 3 and isinstance(r[0], str):
@@ -840,6 +960,15 @@ def _shrink_problem(ps):
 
 def shrink(payload):
     t = payload[0]
+    if t in ("rk", "chain", "up"):
+        i = 2 if t == "rk" else 1
+        k = payload[i]
+        for f in k[1]:
+            yield payload[:i] + [["k", [g for g in k[1] if g != f], k[2]]] + payload[i + 1:]
+        if t == "chain":
+            for j in range(len(payload[2])):
+                if len(payload[2]) > 1:
+                    yield ["chain", k, payload[2][:j] + payload[2][j + 1:]]
     if t == "pipe":
         src, cks = payload[1], payload[2]
         for j in range(len(cks)):
@@ -866,7 +995,13 @@ MANIFEST = {
                    "monotone: decided by a syntactic condition (Prog.monoB, proved sound for all input kinds) on the "
                    "resulting_problem_kind programs regenerated from /repo on every run; totality at the latest version and 'the "
                    "declared result never contains the feature the compilation kind removes' (finite check over the features the "
-                   "feature depends on, proved sound) are re-decided by `decide +kernel` as well. Clause 1 itself "
+                   "feature depends on, proved sound) are re-decided by `decide +kernel` as well. Kinds of OLDER ProblemKind versions "
+                   "(Props/C09Versions.lean): for every class and every constructible kind of any version "
+                   "resulting_problem_kind fails no assertion (C09_resulting_never_asserts; the body first upgrades the kind, "
+                   "utils._kind_at_latest_version, matched against the source), the upgrade is <=-equivalent to the given kind "
+                   "and the identity at the latest version, commutes with the declarations, the transformers are monotone "
+                   "across versions, and the factory pipeline theorem holds for an older problem kind (partial: preference "
+                   "lists without Ks0Compiler, which does not upgrade). Clause 1 itself "
                    "(per compiler, over real compiled problems) is NOT proved — no compiler models yet — and is checked by the "
                    "oracle on the real code for every compiler class on generated and bundled problems; the interpreter of the "
                    "declarations and the chain model are tied to the code by differential runs."),
